@@ -55,6 +55,17 @@ func (e *Env) call(x *ast.CallExpr) Value {
 				rv := e.methodRecv(f, sel)
 				recv = &rv
 				recvExpr = f.X
+				if rv.Dyn != nil && types.IsInterface(sel.Recv()) {
+					// statically known concrete receiver: call the concrete method
+					ms := types.NewMethodSet(rv.Dyn.Typ)
+					if m := ms.Lookup(fn.Pkg(), fn.Name()); m != nil {
+						if cf, ok := m.Obj().(*types.Func); ok {
+							fn = cf
+							d := *rv.Dyn
+							recv = &d
+						}
+					}
+				}
 			case types.FieldVal:
 				// call of a func-typed field
 				return e.unknownCall(x, "func-typed field "+exprString(f), tv.Type)
@@ -79,12 +90,26 @@ func (e *Env) call(x *ast.CallExpr) Value {
 		return v
 	}
 	if fc, ok := e.w.Cs.Funcs[key]; ok {
-		return e.callContract(fc, key, sig, recv, args, x.Pos(), tv.Type)
+		if fc.Inline && inModule(fn.Pkg()) {
+			if pkg := e.w.Pkgs[fn.Pkg().Path()]; pkg != nil {
+				if fd, ok := pkg.Funcs[key]; ok && e.inline < 3 && inlinable(fd) {
+					e.curCallArgs = x.Args
+					defer func() { e.curCallArgs = nil }()
+					return e.inlineCall(pkg, fd, fn, sig, recv, args, tv.Type)
+				}
+			}
+		}
+		e.curCallArgs = x.Args
+		r := e.callContract(fc, key, sig, recv, args, x.Pos(), tv.Type)
+		e.curCallArgs = nil
+		return r
 	}
 	// module function without contract: inline small bodies
 	if inModule(fn.Pkg()) {
 		if pkg := e.w.Pkgs[fn.Pkg().Path()]; pkg != nil {
 			if fd, ok := pkg.Funcs[key]; ok && e.inline < 3 && inlinable(fd) {
+				e.curCallArgs = x.Args
+				defer func() { e.curCallArgs = nil }()
 				return e.inlineCall(pkg, fd, fn, sig, recv, args, tv.Type)
 			}
 		}
@@ -248,10 +273,25 @@ func (e *Env) inlineCall(pkg *Pkg, fd *ast.FuncDecl, fn *types.Func, sig *types.
 		}
 	}
 	i := 0
+	callArgs := e.curCallArgs
+	e.curCallArgs = nil
+	counts := countAssignments(pkg.Info, fd.Body)
 	for _, p := range fd.Type.Params.List {
 		for _, n := range p.Names {
 			if obj := pkg.Info.Defs[n]; obj != nil && i < len(args) {
 				e.writeVar(e.localName(obj), obj.Type(), args[i])
+				if args[i].Dyn != nil && counts[obj] == 0 {
+					e.constVals[obj] = args[i]
+				}
+				if i < len(callArgs) && !sig.Variadic() {
+					// class of the actual, judged in the caller's package context
+					save := e.pkg
+					e.pkg = savedPkg
+					e.inline--
+					e.inlineClass[obj] = e.classify(callArgs[i])
+					e.inline++
+					e.pkg = save
+				}
 			}
 			i++
 		}
@@ -426,6 +466,9 @@ func (e *Env) callContract(fc *FuncContract, key string, sig *types.Signature, r
 	for i, n := range fc.Params {
 		if i < len(actuals) && n != "_" {
 			names[n] = actuals[i]
+			if actuals[i].Dyn != nil {
+				names[n] = *actuals[i].Dyn
+			}
 		}
 	}
 	if len(fc.Params) != len(actuals) {
@@ -442,7 +485,27 @@ func (e *Env) callContract(fc *FuncContract, key string, sig *types.Signature, r
 		}
 	}
 
-	pctx := &specCtx{e: e, names: names, bound: map[string]*Term{}, pkg: calleePkg}
+	callArgs := e.curCallArgs
+	e.curCallArgs = nil
+	classOf := func(param string) *Term {
+		off := 0
+		if recv != nil {
+			off = 1
+		}
+		for i, n := range fc.Params {
+			if n == param && i-off >= 0 && i-off < len(callArgs) && !sig.Variadic() {
+				return e.classify(callArgs[i-off])
+			}
+		}
+		return IntLit(2)
+	}
+	for _, pub := range fc.Public {
+		if pub == "nilable" {
+			continue
+		}
+		e.assert(Le(classOf(pub), IntLit(1)), cname, "public."+pub, []string{"C02", "C05"}, "argument for parameter "+pub+" of "+short+" is not derived from operand data", e.w.pos(pos))
+	}
+	pctx := &specCtx{e: e, names: names, bound: map[string]*Term{}, pkg: calleePkg, classOf: classOf}
 	// preconditions
 	for _, cl := range fc.Clauses {
 		if cl.Kind != "requires" {
@@ -513,6 +576,9 @@ func (e *Env) callContract(fc *FuncContract, key string, sig *types.Signature, r
 		walkLeaves(t, nil, func(steps []subStep, lf leaf) {
 			if lf.K == VPtr {
 				return
+			}
+			if _, isArr := lf.Typ.Underlying().(*types.Array); isArr {
+				return // inline arrays have no header in the heap; their cells live in Mem
 			}
 			for _, c := range leafComps(lf.K, lf.ElemU) {
 				havocs = append(havocs, hv{heapMap(lf.Owner, lf.Field) + c.Suf, c.S, subID(r.T, steps)})
